@@ -16,6 +16,13 @@ from __future__ import annotations
 import asyncio
 
 
+def _sockname(peername):
+    """IPv6 socket addresses are 4-tuples (host, port, flowinfo, scope_id) in asyncio, IPv4 ones 2-tuples."""
+    if isinstance(peername, tuple) and len(peername) == 2 and ":" in str(peername[0]):
+        return (peername[0], peername[1], 0, 0)
+    return peername
+
+
 class FakeSSLObject:
     def __init__(self, der: bytes | None):
         self._der = der
@@ -35,7 +42,7 @@ class FakeTransport(asyncio.Transport):
                  after_close: str = "drop"):
         super().__init__()
         self.loop = loop
-        self.peername = peername
+        self.peername = _sockname(peername)
         self.peer_der = peer_der
         self.after_close = after_close
         self.events: list[tuple] = []  # ("write", bytes, t) | ("close", t) | ("late-write", bytes, t)
@@ -148,7 +155,7 @@ class FakeTcp(asyncio.Transport):
         self.loop = loop
         self.on_bytes = on_bytes  # called with every transmitted chunk
         self.on_close = on_close  # called once when the transport is fully closed
-        self.peername = peername
+        self.peername = _sockname(peername)
         self.protocol = None
         self.closing = False
         self.lost = False
